@@ -2100,7 +2100,7 @@ def inelastic_rule(ctx, rid="R19.E1"):
 
     def history(label, paths, kin, solver):
         def thunk():
-            W = World(repo, lib=W0.lib, round_digits=30)
+            W = World(repo, lib=W0.lib, round_digits=30, approx_roots=True)
             res = run(W, build(W, kin=kin, solver=solver), paths)
             return model_checks(f"{label}{' + Prager' if kin else ''}, solver = {solver}", res, kin)
 
@@ -2108,7 +2108,7 @@ def inelastic_rule(ctx, rid="R19.E1"):
 
     def solvers_agree(label, paths):
         def thunk():
-            W = World(repo, lib=W0.lib, round_digits=30)
+            W = World(repo, lib=W0.lib, round_digits=30, approx_roots=True)
             ra = run(W, build(W, kin=False, solver="auto"), paths)
             rn = run(W, build(W, kin=False, solver="newton"), paths)
             for k in range(len(ra["p"])):
@@ -2129,7 +2129,7 @@ def inelastic_rule(ctx, rid="R19.E1"):
 
     def integrate_checks(kin, solver):
         def thunk():
-            W = World(repo, lib=W0.lib, round_digits=30)
+            W = World(repo, lib=W0.lib, round_digits=30, approx_roots=True)
             beh = build(W, kin=kin, solver=solver)
             z = None
             path = [[Q(4, 1000), Q(-1, 1000), Q(-1, 1000), 0, 0, Q(1, 1000)], [Q(9, 1000), Q(-3, 1000), Q(-2, 1000), 0, Q(1, 1000), Q(4, 1000)]]
@@ -2163,7 +2163,7 @@ def inelastic_rule(ctx, rid="R19.E1"):
 
     def plane_stress():
         def thunk():
-            W = World(repo, lib=W0.lib, round_digits=30)
+            W = World(repo, lib=W0.lib, round_digits=30, approx_roots=True)
             b3 = build(W, kin=True, solver="auto")
             r3 = run(W, b3, {"xx": [Q(k, 1000) for k in (3, 6, 9, 6)], "yy": [Q(k, 1000) for k in (-1, -1, -2, 0)], "xy": [Q(k, 1000) for k in (0, 2, 4, 4)]})
             b2 = build(W, dim=2, kin=True, solver="auto", planeStress=True)
